@@ -60,6 +60,36 @@ fn degenerate_masks(w: &str, av: &[&str], b: &[u8]) -> Option<String> {
     let idx: Vec<Scalar> = (0..n).map(|i| Scalar::from(i as u64 + 1)).collect();
     let ones = vec![Scalar::ONE; n];
     let dirs: Vec<(&str, &Vec<Scalar>)> = vec![("ones", &ones), ("bits", &al), ("bits-1", &ar), ("2^i", &two), ("y^i", &yi), ("y^-i", &yinv), ("i+1", &idx)];
+    // the blindings of A and S: A - <bits, G> - <bits-1, H'> = a_blinding*H is a point the witness gives away, and
+    // e_blinding = a_blinding + x*s_blinding is public: if the two blindings are related by a small factor (equal,
+    // negated, doubled, one of them zero) a_blinding follows from e_blinding and the point confirms it
+    {
+        use curve25519_dalek::{ristretto::{CompressedRistretto, RistrettoPoint}, traits::Identity};
+        use sha3::{digest::{ExtendableOutput, Update, XofReader}, Shake256};
+        let chain = |label: &[u8]| -> Vec<RistrettoPoint> {
+            let mut sh = Shake256::default();
+            sh.update(b"GeneratorsChain"); sh.update(label);
+            let mut rd = sh.finalize_xof();
+            (0..n).map(|_| { let mut buf = [0u8; 64]; rd.read(&mut buf); RistrettoPoint::from_uniform_bytes(&buf) }).collect()
+        };
+        let (gv, hv) = (chain(b"G"), chain(b"H"));
+        let hb = *solana_zk_sdk::encryption::pedersen::H;
+        if let Some(a_pt) = CompressedRistretto::from_slice(&b[264..296]).ok().and_then(|c| c.decompress()) {
+            let mut pa = a_pt;
+            for i in 0..n { if al[i] == Scalar::ONE { pa -= gv[i]; } else { pa += hv[i]; } }
+            let eb = fld(264 + 6 * 32)?;
+            if pa == RistrettoPoint::identity() { return Some("related-blindings:a=0".into()); }
+            if eb * hb == pa { return Some("related-blindings:s=0".into()); }
+            for k in [1i64, -1, 2, -2] {
+                let ks = if k > 0 { Scalar::from(k as u64) } else { -Scalar::from((-k) as u64) };
+                // s = k*a  =>  e = a*(1 + k*x) ;  a = k*s  =>  e = s*(k + x), a = k*e/(k + x)
+                let d1 = Scalar::ONE + ks * x;
+                if d1 != Scalar::ZERO && (eb * d1.invert()) * hb == pa { return Some(format!("related-blindings:s={}*a", k)); }
+                let d2 = ks + x;
+                if d2 != Scalar::ZERO && (ks * eb * d2.invert()) * hb == pa { return Some(format!("related-blindings:a={}*s", k)); }
+            }
+        }
+    }
     let a0: Scalar = (0..n).map(|i| e[i] * (al[i] - z)).sum();
     let b0: Scalar = (0..n).map(|i| einv[i] * (yi[i] * (ar[i] + z) + zz[i])).sum();
     for (nu, u) in dirs.iter() {
